@@ -709,9 +709,47 @@ def expr_features(case):
 
 
 _mk("exprs", expr_projection, expr_features)
+
+
+# ------------------------------------------------------------------ exprparse (C02 grouping, C08 parentheses/spellings)
+def exprparse_oracle(case, obs, exp):
+    want = next((x[1] for x in case[3:] if tag(x) == "tree"), None)
+    if want is not None:
+        # written down from this tree by the rules the property states (generator's own table)
+        if tag(obs) != "ast":
+            return "violation", "an expression written from the tree %s was not accepted (%s)" % (sexp.dump(want)[:300], sexp.dump(obs)[:100])
+        if sexp.dump(obs[1]) != sexp.dump(want):
+            return "violation", "written from the tree %s, parsed as %s" % (sexp.dump(want)[:300], sexp.dump(obs[1])[:300])
+        return "ok", "the tree was read back"
+    return "unknown", "the implementation's parser and the parser model disagree on a token sequence"
+
+
+def exprparse_features(case):
+    toks = case[1]
+    kinds = {tag(t) for t in toks}
+    ops = {str(t[1]) for t in toks if tag(t) == "op"}
+    labels = ["tokens<=5" if len(toks) <= 5 else "tokens<=15" if len(toks) <= 15 else "tokens>15",
+              "with-tree" if any(tag(x) == "tree" for x in case[3:]) else "mutated-or-soup",
+              "parens" if "lp" in kinds else "no-parens", "call" if "fn" in kinds else "no-call",
+              "ops=%d" % min(len(ops), 5)]
+    return (sexp.dump(toks), case[2]), len(toks) >= 5, labels
+
+
+def exprparse_shrink(case):
+    # dropping tokens drops the expectation: the shrunk case is judged model vs implementation
+    return [[case[0], r, case[2]] for r in drop_each(case[1])][:60]
+
+
+FAMILIES["exprparse"] = {"oracle": exprparse_oracle, "features": exprparse_features, "shrink": exprparse_shrink,
+                         "always_oracle": True}
+
 PROPERTIES["C02"] = {
-    "families": [("exprs", 260, 8000)],
-    "rule": "3-8 expressions per case, typed trees of depth 3-5 and flat chains of mixed-precedence operators associated "
+    "families": [("exprs", 260, 8000), ("exprparse", 3000, 100000)],
+    "rule": "exprparse: token sequences of the expression language (<= 40 tokens): two thirds written down from random "
+            "untyped trees by the precedence rules the property states, with required and random redundant parentheses "
+            "and random operator spellings - the implementation's parser + listener must give the tree back, and so must "
+            "the parser model; one third mutated sequences and token soups, on which accept/reject and grouping must agree "
+            "with the parser model (Syntax/ExprParser.v over the table extracted from the Go source). exprs: 3-8 expressions per case, typed trees of depth 3-5 and flat chains of mixed-precedence operators associated "
             "at random (printed with minimal, redundant or random extra parentheses and symbol/word/random operator "
             "spellings), over literals, variables, built-ins and the logging probe p; 4% of sub-expressions ill-typed "
             "or faulty. Each value reaches p(\"r<i>\", value) with its type; compared: error positions and the complete "
@@ -960,7 +998,7 @@ def layout_known_class(k, case, exp_line, obs_line):
 
 _mk("layout", runner_projection(flow_view), runner_features(1, 3), layout_oracle)
 PROPERTIES["C08"] = {
-    "families": [("layout", 90, 2500), ("indent", 600, 20000)],
+    "families": [("layout", 90, 2500), ("indent", 600, 20000), ("exprparse", 1500, 50000)],
     "rule": "layout: every generated program is printed under its own random layout and under 10 fixed renderings "
             "(indent unit 1 / 8 blanks / tabs, CRLF, a blank, whitespace-only or comment line at any indentation before "
             "EVERY line, maximal parentheses with word operators, random extra parentheses with symbol operators and "
